@@ -2,7 +2,6 @@
 \* of length <= 4, <= 1 no-compact mark, <= 1 block with 10 % tombstones; cases for the harness: all layouts of
 \* <= 4 plain blocks and of <= 2 flagged blocks
 SPECIFICATION Spec
-PROPERTY Terminates
 CONSTANTS Ranges <- R124
           LoNeg = 1
           Hi = 4
